@@ -132,7 +132,7 @@ def rule_operator_chain(ctx):
             n += 1
             ok = op in ("op", "*new_operators.get(i).unwrap()", "new_operators.get(i).unwrap()") or op in allowed_const
             ctx.check(R, "%s/substitution-op[%s]" % (fname, op), ok and op != "AssignOp::AssignSignal", "a desugared substitution must take its operator from the source statement or the named-input list (constants only for the instantiation, counters and positional inputs)", site(SSR, s))
-    ctx.floor(R, "desugared substitutions", n, 8)
+    ctx.floor(R, "desugared substitutions", n, 5)
     # new_operators for positional inputs is `<==`, for named inputs the written one (C18.4)
     # custom / parallel flags (a custom template is skipped by the pass)
     pd = nts.get("ParseDefinition")
